@@ -22,7 +22,7 @@
 
     The corresponding theorems about the block (multi-task) sweep [bcd_sweep] are in C11/PropertiesBlock.v. *)
 From Coq Require Import List QArith Qreals Reals.
-From LinfaVerif Require Import Common.Num Common.NdSum Common.QF Common.Convex C11.Model C11.Proofs C11.Descent C11.OlsGap.
+From LinfaVerif Require Import Common.Num Common.NdSum Common.QF Common.Convex C11.Model C11.Proofs C11.Descent C11.OlsGap C11.OlsExact.
 Import ListNotations.
 Local Open Scope R_scope.
 
@@ -59,6 +59,24 @@ Theorem ols_ok_noint_sound : forall (cols : list (list Q)) (y w : list Q) (e2s :
   forall w' : list R, length w' = length w ->
   sse (RQ2 cols) (RQ y) w' 0 >= sse (RQ2 cols) (RQ y) (RQ w) 0 - 2 * Rdot (EPS e2s) (absdiff w' (RQ w)).
 Proof. exact Proofs.ols_ok_noint_sound. Qed.
+
+(** T1.  Soundness of the exact-gap checker evaluated on every LinearRegression fit.  Given a candidate
+    (ws, bs) - computed by rational elimination, not trusted - the checker verifies that its residual is
+    exactly orthogonal to every feature column and to the constant column and compares the two sums of
+    squared errors exactly.  Acceptance: no other (w', b') has a sum of squared errors lower than that of the
+    returned (w, b) by more than tau2 - an absolute bound on the optimality gap that does not depend on the
+    conditioning of the design (offsets, scales) nor on the distance to (w', b'). *)
+Theorem ols_exact_ok_sound : forall (cols : list (list Q)) (y w : list Q) (b : Q) (ws : list Q) (bs tau2 : Q),
+  ols_exact_ok cols y w b ws bs tau2 = true -> (0 < length y)%nat ->
+  forall (w' : list R) (b' : R), length w' = length w ->
+  sse (RQ2 cols) (RQ y) w' b' >= sse (RQ2 cols) (RQ y) (RQ w) (Q2R b) - Q2R tau2.
+Proof. exact OlsExact.ols_exact_ok_sound. Qed.
+
+Theorem ols_exact_ok_noint_sound : forall (cols : list (list Q)) (y w ws : list Q) (tau2 : Q),
+  ols_exact_ok_noint cols y w ws tau2 = true -> (0 < length y)%nat ->
+  forall w' : list R, length w' = length w ->
+  sse (RQ2 cols) (RQ y) w' 0 >= sse (RQ2 cols) (RQ y) (RQ w) 0 - Q2R tau2.
+Proof. exact OlsExact.ols_exact_ok_noint_sound. Qed.
 
 (** T1.  Soundness of the elastic-net checker (lasso: l1_ratio = 1, ridge: l1_ratio = 0), JOINTLY in
     coefficients and intercept, for the documented objective with l1 = n*penalty*l1_ratio and
